@@ -5,11 +5,22 @@ from vfw.schema import absval, build, mk_type, same
 from vfw.streams import substrate
 
 
-def entry_obl(prefix, fn, e, tier_params=None, extra=None, extra_thorough=None, budget=60, thorough_budget=240, tiers=None, doc=""):
+NARROW = {"i0": I(127, 128), "i1": I(0, 1), "i2": I(0, 1), "a1": I(0, 1), "a2": I(127, 128), "a3": I(0, 1), "m": I(1, 2), "e": I(0, 1),
+          "c0": I(0x7F, 0x80), "c1": I(0x7F, 0x80), "nb": I(7, 9), "k2": I(0, 1)}
+
+
+def entry_obl(prefix, fn, e, tier_params=None, extra=None, extra_thorough=None, budget=60, thorough_budget=240, tiers=None, doc="",
+              narrow=False, extra_shards=None):
     params = {"sid": C(e.id)}
     params.update(e.params)
+    if narrow:
+        for k, v in NARROW.items():
+            if k in params and params[k][0] == "int":
+                lo, hi = max(v[1], params[k][1]), min(v[2], params[k][2])
+                if lo <= hi:
+                    params[k] = I(lo, hi)
     params.update(extra or {})
-    th = dict(e.thorough)
+    th = {} if narrow else dict(e.thorough)
     th.update(extra_thorough or {})
     shards = None
     if e.shard:
@@ -20,6 +31,9 @@ def entry_obl(prefix, fn, e, tier_params=None, extra=None, extra_thorough=None, 
             lists.append([{name: ("const", v)} for v in vals])
         from vfw.obl import product_shards
         shards = product_shards(*lists)
+    if extra_shards:
+        from vfw.obl import product_shards
+        shards = product_shards(shards or [{}], extra_shards)
     return Obl(id="%s:%s" % (prefix, e.id), fn=fn, params=params, thorough=th, shards=shards, budget=budget, thorough_budget=thorough_budget,
                tiers=tiers or (("quick", "thorough") if e.id in QUICK_IDS else ("thorough",)), doc=doc or "%s on schema %s" % (prefix, e.t.name))
 
